@@ -288,6 +288,36 @@ func Raftkvs(c RaftCfg) *mpexec.System {
 				}
 			}})
 	}
+	// client-visible history (C09): invocation when a client takes a request from reqCh, response when it
+	// hands the server's answer to respCh
+	s.Observe = func(p *mpexec.Proc, label, newPC string, local func(res string) tla.Value) interface{} {
+		if p.Group != "client" {
+			return nil
+		}
+		str := func(v tla.Value, f string) string {
+			x := v.ApplyFunction(tla.MakeString(f))
+			if x.IsString() {
+				return x.AsString()
+			}
+			return x.String()
+		}
+		switch {
+		case label == "clientLoop":
+			req := local("AClient.req")
+			ev := map[string]interface{}{"op": "inv", "client": p.Self.String(), "kind": str(req, "type"), "key": str(req, "key"),
+				"idx": local("AClient.reqIdx").String()}
+			if str(req, "type") == "put" {
+				ev["val"] = str(req, "value")
+			}
+			return ev
+		case label == "rcvResp" && newPC == "clientLoop":
+			resp := local("AClient.resp")
+			mr := resp.ApplyFunction(tla.MakeString("mresponse"))
+			return map[string]interface{}{"op": "ret", "client": p.Self.String(), "idx": str(mr, "idx"), "key": str(mr, "key"),
+				"rval": str(mr, "value"), "ok": mr.ApplyFunction(tla.MakeString("ok")).AsBool(), "mtype": str(resp, "mtype")}
+		}
+		return nil
+	}
 	return s
 }
 
